@@ -136,6 +136,8 @@ theorem gen_calc_zeropad' (p : Params) (hp : p.Valid) (n : Nat) :
   have := hz.1
   have h2 : ((p.used * numSymbols p n : Nat) : Int) = (p.used : Int) * (numSymbols p n : Nat) := by
     push_cast; rfl
+  -- (the translator emits the two factors in a fixed order, whichever way the source writes them)
+  have h3 := Int.mul_comm (p.used : Int) ((numSymbols p n : Nat) : Int)
   omega
 
 end PyPhysim.C02
